@@ -27,10 +27,14 @@ const c15LegacyClass = "peekread-legacy"
 var c15DefaultTypes = []string{"text", "json", "xml", "html", "java"}
 
 type c15Settings struct {
-	kind    string   // default | list | all | disable | custom | reenable | direct
+	kind    string   // default | list | all | disable | custom | reenable | direct | prog
 	list    []string // kind list
 	custom  int      // kind custom: which function
 	verdict bool     // custom function's verdict on the content type (filled by apply)
+	// kind prog: a program of setter calls / clonings over a family of clients; the response is
+	// handled by member `use` (zz_verif_c15_settings_test.go)
+	prog []c15FamOp
+	use  int
 }
 
 var c15CustomFuncs = []func(string) bool{
@@ -39,8 +43,17 @@ var c15CustomFuncs = []func(string) bool{
 	func(ct string) bool { return strings.Contains(ct, "charset") },
 }
 
-// c15Apply configures a real client through the public setters.
-func c15Apply(c *Client, st *c15Settings, ct string) {
+// c15Apply configures a real client through the public setters and returns the transport that
+// handles the response (the client's own, or that of the family member a program selects).
+func c15Apply(c *Client, st *c15Settings, ct string) *Transport {
+	if st.kind == "prog" {
+		return c15RunProg(c, false, st.prog)[st.use].t
+	}
+	c15ApplyKind(c, st, ct)
+	return c.Transport
+}
+
+func c15ApplyKind(c *Client, st *c15Settings, ct string) {
 	switch st.kind {
 	case "list":
 		c.SetAutoDecodeContentType(st.list...)
@@ -61,9 +74,13 @@ func c15Apply(c *Client, st *c15Settings, ct string) {
 // c15ApplyGlobal does the same through the package-level wrappers (client_wrapper.go), which
 // act on the default client; the returned client is a fresh default client installed for
 // this case only.
-func c15ApplyGlobal(st *c15Settings, ct string) (c *Client, restore func()) {
+func c15ApplyGlobal(st *c15Settings, ct string) (t *Transport, restore func()) {
 	old := defaultClient
 	SetDefaultClient(C())
+	restore = func() { SetDefaultClient(old) }
+	if st.kind == "prog" {
+		return c15RunProg(defaultClient, true, st.prog)[st.use].t, restore
+	}
 	switch st.kind {
 	case "list":
 		SetAutoDecodeContentType(st.list...)
@@ -79,11 +96,23 @@ func c15ApplyGlobal(st *c15Settings, ct string) (c *Client, restore func()) {
 		DisableAutoDecode()
 		EnableAutoDecode()
 	}
-	return defaultClient, func() { SetDefaultClient(old) }
+	return defaultClient.Transport, restore
 }
 
-func (st *c15Settings) filterArg() (disable string, filter string) {
+func (st *c15Settings) filterArg(ct string) (disable string, filter string) {
 	switch st.kind {
+	case "prog":
+		dis, f := c15ProgEffective(st.prog, st.use)
+		disable = map[bool]string{false: "0", true: "1"}[dis]
+		switch {
+		case f == nil:
+			return disable, "default"
+		case f.k == 'A':
+			return disable, "all"
+		case f.k == 'L':
+			return disable, "list:" + verifh.HexList(f.list)
+		}
+		return disable, map[bool]string{false: "custom:0", true: "custom:1"}[c15FilterVerdict(f, ct)]
 	case "list":
 		return "0", "list:" + verifh.HexList(st.list)
 	case "all", "direct":
@@ -108,6 +137,9 @@ func (st *c15Settings) selected(ct string, ae string) bool {
 		return false
 	}
 	switch st.kind {
+	case "prog":
+		dis, f := c15ProgEffective(st.prog, st.use)
+		return !dis && c15FilterVerdict(f, ct)
 	case "list":
 		for _, x := range st.list {
 			if strings.Contains(ct, x) {
@@ -147,6 +179,9 @@ type c15Case struct {
 	tag   string
 	// configure through the package-level wrappers acting on the default client
 	global bool
+	// 0: the client's own Debugf (a closure that is silent unless DebugLog is on), 1: a live debug
+	// function (every message is formatted), 2: no debug function at all (a bare Transport)
+	debug int
 }
 
 type c15Res struct {
@@ -213,19 +248,25 @@ func c15Run(cs *c15Case) c15Res {
 		cs.term = io.EOF
 	}
 	// ---- implementation
-	var c *Client
+	var tr *Transport
 	if cs.global {
 		var restore func()
-		c, restore = c15ApplyGlobal(&cs.st, cs.ct)
+		tr, restore = c15ApplyGlobal(&cs.st, cs.ct)
 		defer restore()
 	} else {
-		c = C()
-		c15Apply(c, &cs.st, cs.ct)
+		tr = c15Apply(C(), &cs.st, cs.ct)
+	}
+	switch cs.debug {
+	case 1:
+		tr.Debugf = func(format string, v ...interface{}) { _ = fmt.Sprintf(format, v...) }
+	case 2:
+		tr.Debugf = nil
 	}
 	src := newC15Src(cs.segs, cs.term, cs.lwt)
 	var body io.ReadCloser
+	setupPanic := ""
 	if cs.st.kind == "direct" {
-		body = newAutoDecodeReadCloser(src, c.Transport)
+		body = newAutoDecodeReadCloser(src, tr)
 	} else {
 		h := http.Header{}
 		if cs.ct != "" {
@@ -235,10 +276,18 @@ func c15Run(cs *c15Case) c15Res {
 			h.Set("Accept-Encoding", cs.ae)
 		}
 		r := &http.Response{Header: h, Body: src}
-		c.Transport.autoDecodeResponseBody(r)
+		if ptxt, panicked := verifh.Safely(func() { tr.autoDecodeResponseBody(r) }); panicked {
+			setupPanic = "panic in autoDecodeResponseBody: " + ptxt
+		}
 		body = r.Body
 	}
-	out, term, anomaly := c15Drain(body, cs.bufs, cs.tail, cs.dirty)
+	var out []byte
+	var term, anomaly string
+	if setupPanic != "" {
+		term = "panic"
+	} else {
+		out, term, anomaly = c15Drain(body, cs.bufs, cs.tail, cs.dirty)
+	}
 	kind := "?"
 	switch b := body.(type) {
 	case *c15Src:
@@ -257,7 +306,7 @@ func c15Run(cs *c15Case) c15Res {
 	res.impl = verifh.Hex(string(out)) + " " + term + " " + kind
 
 	// ---- model lines
-	disable, filter := cs.st.filterArg()
+	disable, filter := cs.st.filterArg(cs.ct)
 	ct, ae := cs.ct, cs.ae
 	if cs.st.kind == "direct" {
 		ct, ae = "", ""
@@ -312,12 +361,19 @@ func c15Run(cs *c15Case) c15Res {
 			tblL.addFor(le, cs.body[len(first):])
 		}
 	}
-	common := func(pre, tbl string) string {
-		return strings.Join([]string{disable, filter, verifh.Hex(ae), verifh.Hex(ct), mp, lk, pre, tbl,
+	rest := func(pre, tbl string) string {
+		return strings.Join([]string{verifh.Hex(ae), verifh.Hex(ct), mp, lk, pre, tbl,
 			verifh.HexList(cs.segs), c15TermName(cs.term), map[bool]string{false: "0", true: "1"}[cs.lwt],
 			verifh.IntList(cs.bufs), fmt.Sprint(cs.tail)}, " ")
 	}
-	res.line = "c15read " + common(preF.String(), tblF.String())
+	common := func(pre, tbl string) string { return disable + " " + filter + " " + rest(pre, tbl) }
+	// "C": the model runs its own (concrete) HTML prescan on the sniffed bytes; the harness' expectation
+	// (preF) only chooses which x/text transcodings are sent along as oracle strings
+	res.line = "c15read " + common("C", tblF.String())
+	if cs.st.kind == "prog" {
+		// the MODEL computes the configuration from the program (Req.Decode.runFam)
+		res.line = "c15readp " + c15ProgString(cs.st.prog, cs.ct) + " " + fmt.Sprint(cs.st.use) + " " + rest("C", tblF.String())
+	}
 	dirty := cs.dirty
 	if len(dirty) == 0 {
 		dirty = []byte{0}
@@ -352,6 +408,9 @@ func c15Run(cs *c15Case) c15Res {
 		res.ok, res.detail = false, anomaly
 	case term == "panic":
 		res.ok, res.detail = false, "panic while reading the body"
+		if setupPanic != "" {
+			res.detail = setupPanic
+		}
 	case term == "eof":
 		if cs.term != io.EOF {
 			res.ok, res.detail = false, "source error turned into EOF"
@@ -373,8 +432,12 @@ func c15Run(cs *c15Case) c15Res {
 	} else if sel && !hasCS && sniffEnc != nil {
 		res.decoder = "sniff-" + c15DecID(sniffEnc)
 	}
+	stName := cs.st.kind
+	if stName == "prog" {
+		stName = "prog[" + c15ProgHuman(cs.st.prog, cs.st.use) + "]"
+	}
 	res.human = fmt.Sprintf("%s settings=%s ct=%q ae=%q body=%s segs=%d term=%s/lwt=%v bufs=%v tail=%d dirty=%x… -> %s %s %s",
-		cs.tag, cs.st.kind, cs.ct, cs.ae, c15Short(cs.body), len(cs.segs), c15TermName(cs.term), cs.lwt, cs.bufs, cs.tail,
+		cs.tag, stName, cs.ct, cs.ae, c15Short(cs.body), len(cs.segs), c15TermName(cs.term), cs.lwt, cs.bufs, cs.tail,
 		cs.dirty[:min(4, len(cs.dirty))], c15Short(string(out)), term, kind)
 	if !res.ok {
 		res.human += " ORACLE: " + res.detail
@@ -408,6 +471,9 @@ func c15PickSettings(r *rand.Rand) c15Settings {
 		return c15Settings{kind: "reenable"}
 	case 8, 9, 10, 11:
 		return c15Settings{kind: "direct"}
+	case 12, 13, 14, 15, 16:
+		ops, use := c15GenProg(r, false)
+		return c15Settings{kind: "prog", prog: ops, use: use}
 	}
 	return c15Settings{kind: "default"}
 }
@@ -486,6 +552,21 @@ func c15GenValid(r *rand.Rand, count func(string)) *c15Case {
 	if r.Intn(25) == 0 {
 		n = verifh.Pick(r, c15BigSizes)
 	}
+	// a class of its own: the FIRST source read is larger than transform.Reader's 4096-byte source
+	// buffer and the charset is sniffed from it (the decoder must not keep reading from the caller's
+	// buffer, which the caller overwrites after every Read)
+	bigFirst := r.Intn(12) == 0
+	if bigFirst {
+		n = verifh.Pick(r, []int{4097, 4200, 5000, 8193, 12000})
+		switch cs.kind {
+		case "u16le", "u16be", "utf8bom":
+			site = "bom"
+		case "utf8":
+			site = "metacharset"
+		default:
+			site = verifh.Pick(r, []string{"metacharset", "metahttpequiv", "conflict-meta"})
+		}
+	}
 	declAt := 0
 	switch r.Intn(4) {
 	case 0:
@@ -507,6 +588,8 @@ func c15GenValid(r *rand.Rand, count func(string)) *c15Case {
 	if c.global {
 		count("settings-via-global-wrappers")
 	}
+	c.debug = verifh.Pick(r, []int{0, 0, 0, 0, 1, 2})
+	count(fmt.Sprintf("debugf:%d", c.debug))
 	// content type
 	ct := verifh.Pick(r, c15ContentTypes)
 	hdrLabel := ""
@@ -532,16 +615,28 @@ func c15GenValid(r *rand.Rand, count func(string)) *c15Case {
 	c.segs = c15Segment(r, b, mode)
 	c.term, c.lwt = c15PickTerm(r)
 	c.bufs, c.tail, c.dirty = c15PickBufs(r, len(b.body))
-	c.prescan = func(content string) (encoding.Encoding, string) { return c15ExpectedPrescan(b, len(content)) }
-	if _, e := c15ExpectedBOM(b.body); e != nil {
-		c.cands = append(c.cands, e)
-	}
-	if !strings.HasPrefix(b.body, "\xef\xbb\xbf") && !strings.HasPrefix(b.body, "\xff\xfe") && !strings.HasPrefix(b.body, "\xfe\xff") {
-		for _, d := range b.decls {
-			if d.real {
-				c.cands = append(c.cands, c15Lookup(d.label))
-			}
+	if bigFirst && len(b.body) > 4096 {
+		k := 4097 + r.Intn(len(b.body)-4096)
+		c.segs = []string{b.body[:k]}
+		if k < len(b.body) {
+			c.segs = append(c.segs, b.body[k:])
 		}
+		c.bufs = append([]int{verifh.Pick(r, []int{k, k + 1, 8192, 16384, len(b.body) + 512})}, c.bufs...)
+		if c.bufs[0] < k {
+			c.bufs[0] = k
+		}
+		c.ct = verifh.Pick(r, []string{"text/html", "text/html", "application/xhtml+xml", "text/plain"})
+		count("first-read>4096-sniffed")
+	}
+	c.prescan = func(content string) (encoding.Encoding, string) { return c15ExpectedPrescan(b, len(content)) }
+	// the only charset a sniff may legitimately apply: the one a scan of the WHOLE body selects (BOM first,
+	// else the first complete supported declaration) — split_only_affects_meta_detection
+	if bn, e := c15ExpectedBOM(b.body); bn != "" {
+		if e != nil {
+			c.cands = append(c.cands, e)
+		}
+	} else if e, _ := c15ExpectedPrescan(b, len(b.body)); e != nil {
+		c.cands = append(c.cands, e)
 	}
 	count("site:" + site)
 	count("kind:" + cs.kind)
@@ -565,7 +660,7 @@ func c15GenMalformed(r *rand.Rand, count func(string)) *c15Case {
 	case 0: // random bytes under a header-declared charset
 		n := verifh.Pick(r, []int{0, 1, 2, 3, 4, 5, 17, 64, 255, 511, 512, 513, 600})
 		body = verifh.RandBytes(r, n, verifh.Pick(r, []string{"", "", "\xd8\xdc\x00\x41\xff\xfe\xdb\xdf", "ab\x80\x81\xff"}))
-		label := verifh.Pick(r, []string{"utf-16le", "utf-16be", "utf-16", "windows-1252", "iso-8859-1", "gbk", "big5", "shift_jis", "euc-kr", "gb18030", "iso-2022-jp", "euc-jp", "replacement", "x-user-defined", "ibm437", "macintosh"})
+		label := verifh.Pick(r, []string{"utf-16le", "utf-16be", "utf-16", "windows-1252", "iso-8859-1", "gbk", "big5", "shift_jis", "euc-kr", "gb18030", "iso-2022-jp", "euc-jp", "replacement", "x-user-defined", "ibm437", "macintosh", "utf-7", "utf-32", "cesu-8", "x-unknown"})
 		c.ct = "text/html; charset=" + label
 		c.tag = "malformed/random-bytes/" + label
 		count("malformed:random-bytes")
@@ -596,6 +691,8 @@ func c15GenMalformed(r *rand.Rand, count func(string)) *c15Case {
 		c.tag = "malformed/soup"
 		count("malformed:soup")
 	}
+	// entity unescaping of attribute values (x/net/html) is outside the model: no '&'
+	body = strings.ReplaceAll(body, "&", "+")
 	c.body = body
 	fake := c15Body{body: body}
 	for i := 1; i < len(body); i++ {
@@ -676,6 +773,15 @@ func TestVerif_C15_read(t *testing.T) {
 		}
 		res := c15Run(c)
 		all = append(all, res)
+		if c.st.kind == "prog" {
+			count("settings-program")
+			for _, f := range c15ProgFeatures(c.st.prog, c.st.use) {
+				count(f)
+				if res.nontriv {
+					count(f + ":a-charset-applies")
+				}
+			}
+		}
 		parts := strings.Split(res.impl, " ")
 		count("impl-kind:" + strings.SplitN(parts[2], ":", 2)[0])
 		count("impl-term:" + parts[1])
@@ -723,7 +829,8 @@ func TestVerif_C15_read(t *testing.T) {
 		"site:conflict-header", "site:decoy", "kind:mb", "kind:sb", "kind:u16le", "kind:u16be", "kind:utf8", "kind:utf8bom",
 		"impl-kind:raw", "impl-kind:hdr", "impl-kind:auto", "sniff:found", "sniff:nothing", "impl-term:eof", "impl-term:err",
 		"malformed:random-bytes", "malformed:mutated", "malformed:soup", "segmode:3", "segmode:4",
-		"settings-via-global-wrappers", "decoder:hdr-w1252", "decoder:hdr-u16le", "decoder:hdr-tbl", "decoder:sniff-w1252", "decoder:sniff-u16le", "decoder:sniff-u16be", "decoder:sniff-tbl"} {
+		"first-read>4096-sniffed", "debugf:1", "debugf:2", "settings-via-global-wrappers", "settings-program", "prog:request-by-a-clone", "prog:cloned-while-switched-off", "prog:cloned-with-filter-set",
+		"prog:cloned-off-with-filter-then-switched-on", "prog:several-clones", "decoder:hdr-w1252", "decoder:hdr-u16le", "decoder:hdr-tbl", "decoder:sniff-w1252", "decoder:sniff-u16le", "decoder:sniff-u16be", "decoder:sniff-tbl"} {
 		if cnt[must] == 0 {
 			t.Errorf("generator never reached bucket %q", must)
 		}
